@@ -131,6 +131,7 @@ func c07CanonText(s string, prefix string, base int, v *big.Int) bool {
 	return got.Cmp(new(big.Int).Abs(v)) == 0
 }
 
+//verif:havoc int:text
 //verif:property C07
 //verif:encoding int
 //verif:expect called
